@@ -8,14 +8,15 @@ META = {
     "functions": ["ascon_aead_increment_nonce", "ascon_aead_set_counter", "ascon{128,128a,80pq}_aead_{init,start,encrypt_block,encrypt_finalize}",
                   "C++ cipher classes' nonce rules (do_encrypt/do_decrypt/set_nonce/set_counter) via the LLVM-IR route"],
     "bounds": "increment_nonce: all 2^128 nonces in one query (covers every carry-chain length); set_counter: all 2^64 counters; sessions of two packets "
-              "(AD, plaintext lengths concrete; key, nonce, data symbolic) compared with the one-shot model under N and N+1",
-    "outside": "sessions longer than two packets as a direct claim (start only reads key/nonce and overwrites the whole state, so packet i depends on the stored nonce only)",
+              "(AD, plaintext lengths concrete; key, nonce, data symbolic) compared with the one-shot model under N and N+1; mixed sessions of three packets "
+              "(encrypt, decrypt of an arbitrary ciphertext/tag pair, encrypt) compared with the model under N, N+1, N+2",
+    "outside": "sessions longer than three packets as a direct claim (start only reads key/nonce and overwrites the whole state, so packet i depends on the stored nonce only)",
     "assumptions": ["transcript form composed with C08"],
     "explanation": "bounded model checking; arithmetic model = two 64-bit limbs with carry",
 }
 MANIFEST = {
     "text": "Bounded model checking: the nonce increment equals +1 mod 2^128 big-endian for all 2^128 inputs, set_counter for all 2^64; two consecutive packets of an "
-            "incremental session equal the one-shot model under N and N+1 and leave N+2 stored; the C++ objects' nonce rules are decided on the clang IR of the class code.",
+            "incremental session equal the one-shot model under N and N+1 and leave N+2 stored; a three-packet session encrypt / decrypt(arbitrary ciphertext and tag, accepted or rejected) / encrypt equals the model under N, N+1, N+2 and leaves N+3; the C++ objects' nonce rules are decided on the clang IR of the class code.",
     "note": "Trusted: CBMC/cadical, spec models, lock-step composition; for the C++ part the IR-to-C translator (self-validated against the native build).",
 }
 
@@ -32,6 +33,10 @@ def queries(tier):
                 qs.append(Query("session2:%s:%s:ad%d:m%d" % (ALGN[alg], be, ad, m), "harness/C14/nonce.c", repo_srcs=AEAD_SRCS[alg] + AEAD_COMMON, backend=be, form="T",
                                 defs={"KIND": 2, "ALG": alg, "ADLEN": ad, "MLEN": m, "LS_MAX": 2 * aead_calls(alg, ad, m) + 2},
                                 shape={"alg": ALGN[alg], "adlen": ad, "mlen": m, "packets": 2}, unwind=80, timeout=900))
+            for ad, m in ([(1, r + 1)] if tier == "quick" else [(0, 0), (1, r + 1), (r, r)]):
+                qs.append(Query("session3mixed:%s:%s:ad%d:m%d" % (ALGN[alg], be, ad, m), "harness/C14/nonce.c", repo_srcs=AEAD_SRCS[alg] + AEAD_COMMON, backend=be, form="T",
+                                defs={"KIND": 3, "ALG": alg, "ADLEN": ad, "MLEN": m, "LS_MAX": 3 * aead_calls(alg, ad, m) + 2},
+                                shape={"alg": ALGN[alg], "adlen": ad, "mlen": m, "packets": "encrypt, decrypt(arbitrary ciphertext and tag), encrypt"}, unwind=80, timeout=900))
     try:
         from checks import cpp_ir
         qs += cpp_ir.c14_queries(tier)
